@@ -27,7 +27,7 @@ pub(crate) mod kani_verif {
     // @h props=C07,C08!,C02 tier=quick kind=proved cfg=default funcs=LmsPublicKey::to_binary_representation;InMemoryLmsPublicKey::new contract="bytes == u32(lms type)||u32(lmots type)||I||T[1], length 24+n, parses back to the same key; every type code pair, I, key; n=16 and n=24"
     #[kani::proof]
     #[kani::stub(<[u8; 32] as tinyvec::Array>::default, fast_default)]
-    #[kani::unwind(40)]
+    #[kani::unwind(60)]
     fn c07_lms_pub_bytes() {
         check_pub_bytes::<Sha256_128, 16>();
         check_pub_bytes::<Sha256_192, 24>();
